@@ -8,6 +8,7 @@ PYTHONHASHSEED must give identical paths.  Model side: literal keys of both conf
 import copy
 import json
 import os
+import pathlib
 import subprocess
 import sys
 
@@ -235,6 +236,8 @@ def run(ctx):
     nested_mount_probe(ctx, root)
     registry_reuse_probe(ctx, root)
     root_homonym_probe(ctx, root)
+    path_spelling_probe(ctx, root)
+    ambient_probe(ctx, root)
 
 
 K2_SRC = '''
@@ -611,6 +614,106 @@ def root_homonym_probe(ctx, root):
         if len({v[0] for v in locs.values()}) > 1 or any(v[1] for v in locs.values()):
             ctx.fail('a task of the same name elsewhere in the chain changed the inputs or the location of a mounted task', case, locs)
         b.cleanup_module()
+
+
+def path_spelling_probe(ctx, root):
+    """the location does not depend on HOW the path of a config file is written, nor on the process's working directory: absolute, relative
+    to the current directory, with `./` and `dir/../dir` segments, with a trailing-slash base directory, through a symbolic link to the
+    directory — one computation, one location (parameter mode); in name mode the config NAME (file stem) decides, the same for all spellings"""
+    from taskchain import Config
+    for k in range(ctx.n(4, 24)):
+        rng = ctx.rng('path-spelling', k)
+        x = gen.gen_value(rng, 0, 2, gen.SAFE, gen.SAFE)
+        spec = {'classes': {'K0': {'name': 'up', 'group': '', 'params': [{'name': 'x'}], 'inputs': [], 'kind': 'json', 'run_args': ['x']},
+                            'K1': {'name': 'down', 'group': 'g', 'params': [], 'inputs': [{'by': 'class', 'ref': 'K0'}], 'kind': 'json', 'run_args': [],
+                                   'pull': [], 'in_kinds': {}}},
+                'files': {'sub/p.json': {'tasks': ['K0', 'K1'], 'x': x}, 'main.json': {'uses': ['@cfg/sub/p.json as n']}}, 'main': 'main.json',
+                'module': gen.fresh_modname()}
+        b = pl.materialize(spec, root / f'ps{k}', modname=spec['module'])
+        b.module()
+        main = b.path('main.json')
+        cfgdir = main.parent
+        link = root / f'ps{k}' / 'link-to-cfg'
+        if not link.exists():
+            link.symlink_to(cfgdir, target_is_directory=True)
+        data = root / f'ps{k}' / 'data'
+        pmode = bool(k % 3)
+        case = {'probe': 'path spelling and working directory', 'x': x, 'parameter_mode': pmode}
+        ctx.case(case); ctx.count('path-spelling-probe')
+        spellings = {
+            'absolute': (None, str(main), str(data)),
+            'relative to cwd': (str(cfgdir), 'main.json', str(data)),
+            'dot segments': (None, str(cfgdir / '.' / 'sub' / '..' / 'main.json'), str(data) + '/'),
+            'relative from parent': (str(cfgdir.parent), str(pathlib.Path(cfgdir.name) / 'main.json'), str(data)),
+            'through a symlink': (None, str(link / 'main.json'), str(data)),
+        }
+        locs = {}
+        old_cwd = os.getcwd()
+        for how, (cwd, path, dd) in spellings.items():
+            try:
+                if cwd:
+                    os.chdir(cwd)
+                chain = Config(dd, path).chain(parameter_mode=pmode)
+                locs[how] = {n: os.path.relpath(os.path.realpath(str(t.data_path)), os.path.realpath(str(data))) for n, t in chain.tasks.items()}
+            except Exception as e:      # noqa
+                locs[how] = {'error': f'{type(e).__name__}: {e}'[:120]}
+            finally:
+                os.chdir(old_cwd)
+        if len({json.dumps(v, sort_keys=True) for v in locs.values()}) > 1:
+            ctx.fail('the spelling of a config path or the working directory changed a storage location', case, locs)
+        b.cleanup_module()
+
+
+def ambient_probe(ctx, root):
+    """the location does not depend on the environment of the process: `HOME` (a `dtype=Path` value written `~/data`), the working directory
+    (a relative `Path` value; a relative DATA directory resolves against the working directory — not against the place of the config
+    file, so a copied or moved config file stores where the original did)"""
+    import shutil
+    from taskchain import Config
+    spec = {'classes': {'K0': {'name': 'o', 'group': '', 'params': [{'name': 'pth', 'dtype': 'path'}, {'name': 'x', 'default': 1}], 'inputs': [], 'kind': 'json',
+                               'run_args': []}},
+            'files': {'a/main.json': {'tasks': ['K0'], 'pth': '~/data/corpus'}, 'rel.json': {'tasks': ['K0'], 'pth': 'inputs/raw'}}, 'main': 'a/main.json',
+            'module': gen.fresh_modname()}
+    b = pl.materialize(spec, root / 'amb', modname=spec['module'])
+    b.module()
+    main = b.path('a/main.json')
+    copy = main.parent.parent / 'b' / 'main.json'
+    copy.parent.mkdir(exist_ok=True)
+    shutil.copy(main, copy)
+    work = root / 'amb' / 'work'
+    other = root / 'amb' / 'elsewhere'
+    for d_ in (work, other, work / 'inputs' / 'raw'):
+        d_.mkdir(parents=True, exist_ok=True)
+    old_home, old_cwd = os.environ.get('HOME'), os.getcwd()
+    case = {'probe': 'HOME / working directory / place of the config file'}
+    ctx.case(case, nontrivial=True); ctx.count('ambient-probe')
+    try:
+        keys = {}
+        for home in ('/home/alice', '/srv/bob'):
+            os.environ['HOME'] = home
+            keys[home] = Config(root / 'amb' / 'data', str(main)).chain().tasks['o'].name_for_persistence
+        if len(set(keys.values())) > 1:
+            ctx.fail('the key of a task depends on the HOME of the process', case, keys)
+        keys = {}
+        for cwd in (work, other):
+            os.chdir(cwd)
+            keys[str(cwd.name)] = Config(root / 'amb' / 'data', str(b.path('rel.json'))).chain().tasks['o'].name_for_persistence
+        if len(set(keys.values())) > 1:
+            ctx.fail('the key of a task with a relative path value depends on the working directory', case, keys)
+        os.chdir(work)
+        locs = {}
+        for how, path in (('original', main), ('copy elsewhere', copy)):
+            t = Config(pathlib.Path('store'), str(path)).chain().tasks['o']
+            locs[how] = os.path.realpath(str(t.data_path))
+        if len(set(locs.values())) > 1 or not all(v.startswith(os.path.realpath(str(work / 'store'))) for v in locs.values()):
+            ctx.fail('a relative data directory is not resolved against the working directory (a copied config file stores elsewhere)', case, locs)
+    finally:
+        os.chdir(old_cwd)
+        if old_home is None:
+            os.environ.pop('HOME', None)
+        else:
+            os.environ['HOME'] = old_home
+    b.cleanup_module()
 
 
 def config_object_probe(ctx, root):
